@@ -103,3 +103,8 @@ Definition balance_text (cfg : balance_cfg) (tc : text_cfg) (ds : list sdirectiv
 Definition check_cmd (lenient : bool) (ds : list sdirective) : cresult unit :=
   cbind (load ds) (fun b =>
   cbind (run_stage (check_proc lenient) check_init (b_days b)) (fun _ => COk tt)).
+
+(* knut check FILE with the fully repaired checker (Model/Check.v, check_proc_fixed) *)
+Definition check_cmd_fixed (ds : list sdirective) : cresult unit :=
+  cbind (load ds) (fun b =>
+  cbind (run_stage check_proc_fixed check_init (b_days b)) (fun _ => COk tt)).
